@@ -96,6 +96,7 @@ struct InterpreterEnv : public ScriptExecutionEnvironment {
     // P2SH support
     bool is_p2sh;
     stack_type p2shstack;
+    bool p2sh_sig_pushonly = true; // whether the scriptSig that ran before the P2SH scriptPubKey was push-only
 
     // Executed sigScript support (archaeology)
     CScript successor_script;
